@@ -83,6 +83,69 @@ func runC14(r *Run) {
 	for h := 0; h < nHist*4; h++ {
 		c14Direct(r, h)
 	}
+	for h := 0; h < 1+nHist/100; h++ {
+		c14Burst(r, h)
+	}
+}
+
+// c14Burst: a handler that stalls while 6000 row insertions are applied (far fewer than the event buffer of
+// 65536 holds): once it resumes, every one of those changes must be delivered, in order
+func c14Burst(r *Run, h int) {
+	spec := SchemaSpec{Name: "db", Tables: []TableSpec{c05Table}}
+	db, err := BuildDB(spec, nil)
+	if err != nil {
+		panic(err)
+	}
+	logger := logr.Discard()
+	tc, err := cache.NewTableCache(db.Model, nil, &logger)
+	if err != nil {
+		panic(err)
+	}
+	release := make(chan struct{})
+	var once sync.Once
+	rec := &recorder{db: db}
+	rec.delay = func() { once.Do(func() { <-release }) }
+	tc.AddEventHandler(rec.handler())
+	stop, done := make(chan struct{}), make(chan struct{})
+	go func() { tc.Run(stop); close(done) }()
+	defer func() { close(stop); <-done }()
+	const batches, per = 12, 500
+	cs := map[string]interface{}{"notifications": batches, "inserts_per_notification": per}
+	r.Case("burst", fmt.Sprint(h))
+	n := 0
+	for b := 0; b < batches; b++ {
+		tu := ovsdb.TableUpdate2{}
+		for k := 0; k < per; k++ {
+			n++
+			row := rowToOvs(Row{"name": VA(AS(fmt.Sprintf("r%d", n))), "n": VA(AI(int64(n)))})
+			tu[mkUUID(100000+n)] = &ovsdb.RowUpdate2{Insert: &row}
+		}
+		if err := tc.Populate2(ovsdb.TableUpdates2{"T": tu}); err != nil {
+			r.Violation("burst", cs, err.Error(), "applied", true, "applying a notification of 500 inserts failed", "")
+			close(release)
+			return
+		}
+	}
+	close(release)
+	deadline := time.Now().Add(10 * time.Second)
+	for time.Now().Before(deadline) && len(rec.snapshot()) < n {
+		time.Sleep(2 * time.Millisecond)
+	}
+	time.Sleep(20 * time.Millisecond)
+	es := rec.snapshot()
+	if len(es) != n {
+		r.Violation("burst", cs, fmt.Sprintf("%d events delivered", len(es)), fmt.Sprintf("%d changes applied", n), true,
+			"events were lost although far fewer were outstanding than the event buffer holds", "")
+		return
+	}
+	st, why := replayEvents(es)
+	if why != "" {
+		r.Violation("burst", cs, why, "", true, why, "")
+		return
+	}
+	if got := len(tc.Table("T").Rows()); got != len(st) {
+		r.Violation("burst", cs, fmt.Sprintf("replay holds %d rows", len(st)), fmt.Sprintf("cache holds %d", got), true, "the events replayed do not reproduce the cache", "")
+	}
 }
 
 // cacheOnly gives cacheDump a bare TableCache
